@@ -184,6 +184,9 @@ video_filter_thread(struct video_filter_s* self)
         throttler_wait(&throttler);
     }
     LOG("[stream: %d] PROCESSING: Flush", self->stream_id);
+    // The backlog may span the wrap point of the queue: one pass gets the
+    // rest of the old lap, a second one what is at the start of the new lap.
+    CHECK(process_data(self, &accumulator, &frame_count));
     CHECK(process_data(self, &accumulator, &frame_count));
 Finalize:
     if (accumulator)
